@@ -1,7 +1,7 @@
 """C05 - CFDP fixed PDU header: exact encoding, round trip, refusals."""
 from __future__ import annotations
 
-from spverif.core.util import attempt, exc_sig, pool_uint, rand_uint
+from spverif.core.util import attempt, exc_sig, pool_uint, rand_uint, hist_len
 from spverif.ref import cfdp as R
 from . import _cfdp as C
 
@@ -202,7 +202,7 @@ def k_reuse(ctx, seed, start="ctor"):
     if start == "unpack":
         h = X.PduHeader.unpack(bytes(h.pack()))
     trail = []
-    for rnd in range(r.randrange(1, 5)):
+    for rnd in range(hist_len(r, 1, 5)):
         if r.random() < 0.7:
             h.pack()
         inplace = r.random() < 0.5
